@@ -6,10 +6,10 @@
 (***************************************************************************)
 EXTENDS Naturals, Integers, Sequences, FiniteSets
 
-Max(a, b) == IF a >= b THEN a ELSE b
-Min(a, b) == IF a <= b THEN a ELSE b
+MaxOf(a, b) == IF a >= b THEN a ELSE b
+MinOf(a, b) == IF a <= b THEN a ELSE b
 
-Range(s) == {s[i] : i \in DOMAIN s}
+RangeOf(s) == {s[i] : i \in DOMAIN s}
 
 \* Concatenate a sequence of sequences.
 RECURSIVE Flatten(_)
@@ -64,11 +64,11 @@ LastIndexOf(s, x) ==
   ELSE LastIndexOf(SubSeq(s, 1, Len(s) - 1), x)
 
 \* Replace every (non-overlapping, leftmost) occurrence of pat in s by rep. pat # <<>>.
-RECURSIVE ReplaceAll(_, _, _)
-ReplaceAll(s, pat, rep) ==
+RECURSIVE ReplaceSub(_, _, _)
+ReplaceSub(s, pat, rep) ==
   IF Len(s) < Len(pat) THEN s
   ELSE IF SubSeq(s, 1, Len(pat)) = pat
-       THEN rep \o ReplaceAll(SubSeq(s, Len(pat) + 1, Len(s)), pat, rep)
-       ELSE <<Head(s)>> \o ReplaceAll(Tail(s), pat, rep)
+       THEN rep \o ReplaceSub(SubSeq(s, Len(pat) + 1, Len(s)), pat, rep)
+       ELSE <<Head(s)>> \o ReplaceSub(Tail(s), pat, rep)
 
 =============================================================================
